@@ -17,6 +17,7 @@ from qgv import core, pyexpr
 from gen import integrator as gen
 
 REL_TOL, ABS_TOL = 1e-7, 1e-9          # |impl - ref| <= max(REL_TOL*|ref|, ABS_TOL*a)
+QUAD_EPS = 1.49e-8                     # scipy.integrate.quad's default epsabs = epsrel (the code passes no options)
 
 # the spec side, written independently of the repo and of the generator: g as a function of the instantaneous angle
 G = {
@@ -124,6 +125,20 @@ def judge(spec, key, theta, a, pulse=None):
         return f"raised {type(e).__name__}: {e}", {"expected": ref, "observed": f"{type(e).__name__}", "warnings": []}
     tol = max(REL_TOL * abs(ref), ABS_TOL * float(a))
     rec = {"expected": ref, "observed": repr(v1), "tolerance": tol, "warnings": warn}
+    if not (abs(v1 - ref) <= tol) and not pulse.use_lookup and math.isfinite(v1):
+        # numerical branch: the code calls quad with its default tolerances (epsabs = epsrel = 1.49e-8).  "quad is the integral
+        # within its tolerance" is an assumption of C12, so a deviation is only a failure if it exceeds what scipy itself reports
+        # as its error ON THE SPECIFIED integrand g(theta*F(t/a)) (computed here, independently of the repo), capped by quad's
+        # contract.  For smooth integrands that estimate is ~1e-14 and the tight tolerance stays in force.
+        import scipy.integrate
+        with warnings.catch_warnings():
+            warnings.simplefilter("ignore")
+            _, abserr = scipy.integrate.quad(lambda t: float(G[key](float(theta) * float(F(t / a)))), 0, a)
+        allowance = min(abserr, QUAD_EPS * max(1.0, abs(ref)))
+        if abs(v1 - ref) <= max(tol, allowance):
+            rec["quad_limited"] = {"deviation": abs(v1 - ref), "quad_reported_abserr_on_spec_integrand": abserr}
+            tol = max(tol, allowance)
+            rec["tolerance"] = tol
     if not (abs(v1 - ref) <= tol):
         return f"integrate returned {v1!r}, the integral of g(theta*F(t/a)) over [0,a] is {ref!r} (tolerance {tol:.3g})", rec
     if not (same_float(v1, v2) and same_float(v1, v3)):
@@ -313,9 +328,10 @@ def translation_validation(ctx, ex):
             mism.append(("input validation", bad[0], bad[1], bad[2], type(e).__name__, "AssertionError"))
     # pulse.py facts the `integrate_spec` hypothesis `use_lookup -> F = id` rests on
     for cls, fact in ex["pulse_facts"].items():
-        p = getattr(P, cls)()
+        p = getattr(P, cls)() if cls != "GaussianPulse" else P.GaussianPulse(loc=0.4, scale=0.3)
         n += 1
-        if p.use_lookup != fact["use_lookup"] or p.get_parametrization() is not P.identity or P.identity(0.37) != 0.37:
+        is_id = p.get_parametrization() is P.identity and P.identity(0.37) == 0.37
+        if p.use_lookup != fact["use_lookup"] or is_id != (fact["parametrization"] == "identity") or (p.use_lookup and not is_id):
             mism.append(("pulse fact", cls, 0, 0, (p.use_lookup, p.get_parametrization()), fact))
     return n, mism
 
@@ -380,6 +396,7 @@ def main(ctx):
 
     cs = cases(ctx)
     pulses = {}
+    quad_limited = []
     fails, nontrivial, hist = [], set(), {"pulse": {}, "theta": {}, "a": {}, "key": {}, "warnings": {}}
     bump = lambda h, k: hist[h].__setitem__(k, hist[h].get(k, 0) + 1)
     for spec, key, theta, a, label in cs:
@@ -395,6 +412,8 @@ def main(ctx):
             bump("warnings", wk)
         if (not is_constant(spec) and a != 1) or theta == 0 or abs(theta) < 1e-3 or abs(theta) > 10 or theta < 0:
             nontrivial.add(core.sha([spec, key, repr(theta), repr(a)]))
+        if "quad_limited" in rec:
+            quad_limited.append({"pulse": spec, "key": key, "theta": theta, "a": a, **rec["quad_limited"]})
         if bad:
             fails.append((spec, key, theta, a, bad, rec))
     for k in (1, len(CORPUS) + 3, len(cs) - 1):
@@ -427,6 +446,10 @@ def main(ctx):
     cov["oracle_cases"] = len(cs)
     cov["oracle_failures"] = len(fails)
     cov["histogram"] = hist
+    cov["quad_limited_cases"] = {
+        "meaning": "numerical-branch cases that miss the tight tolerance but lie within the error scipy.integrate.quad reports on the "
+                   "specified integrand (<= its default tolerance 1.49e-8): accuracy of quad with default options, not a defect",
+        "count": len(quad_limited), "worst": sorted(quad_limited, key=lambda r: -r["deviation"])[:3]}
     cov["translation_validation_cases"] = tv_n
     cov["translation_validation_mismatches"] = len(tv_mismatch)
     cov["cache_key_fields"] = list(ex["integrate"]["cache_key"]) if ex else None
@@ -442,7 +465,11 @@ def main(ctx):
         "reference oracle: composite 200-node Gauss-Legendre quadrature with subinterval boundaries at a*(loc +- k*scale) and kinks",
     ]
     ctx.assumptions += ["a > 0 (validated by `integrate`); theta any real; F = pulse.get_parametrization()",
-                        f"numeric oracle tolerance max({REL_TOL} relative, {ABS_TOL}*a absolute)",
+                        "use_lookup is only set together with F = identity (documented contract of Pulse.use_lookup; extracted from "
+                        "pulse.py for ConstantPulse / ConstantPulseNumerical / GaussianPulse and checked on the objects); a user who "
+                        "builds Pulse(non-constant F, use_lookup=True) gets the constant-pulse value by design",
+                        f"numeric oracle tolerance max({REL_TOL} relative, {ABS_TOL}*a absolute); on the numerical branch additionally "
+                        f"the error quad itself reports on the specified integrand, capped by {QUAD_EPS}*max(1,|I|) (counted: quad_limited_cases)",
                         "cached = uncached over arbitrary histories is C10; here each case is evaluated twice and on a fresh Integrator"]
 
     # ---- verdicts: one VIOLATION per class of failing input, the first (designed / simplest) case as replay
@@ -477,5 +504,6 @@ def replay(ctx, path):
         theta = {"0": 0, "-0.0": -0.0, "0.0": 0.0}[rp["theta_repr"]]
     bad, rec = judge(rp["pulse"], rp["key"], theta, rp["a"])
     print(f"Integrator({rp['pulse']}).integrate({rp['key']!r}, {theta!r}, {rp['a']!r}) = {rec['observed']} | "
-          f"independent quadrature of g(theta*F(t/a)) over [0,a] = {rec['expected']!r} | oracle: {bad or 'holds'}")
+          f"independent quadrature of g(theta*F(t/a)) over [0,a] = {rec['expected']!r} | oracle: {bad or 'holds'}"
+          + (f" (within the error quad reports on the specified integrand: {rec['quad_limited']})" if "quad_limited" in rec else ""))
     return 1 if bad else 0
